@@ -112,6 +112,8 @@ def expand(t, T, depth=0):
 
 
 def expand_value(v, tykey, prec, trait, T, depth, where):
+    if v.op == "join" and escape_image(v) is not None:
+        return [("hole", Hole("value", tykey, v, prec, trait, where))]       # a character-wise escape of a text
     if v.op in ("format", "fmtargs", "join", "str") or (v.op == "ite" and tykey.endswith("String")):
         return expand(v, T, depth)
     return [("hole", Hole("value", tykey, v, prec, trait, where))]
@@ -231,6 +233,17 @@ SAFE = re.compile(r"^([^<&]|&(amp|lt|gt|apos|quot);)*$")
 def escape_image(t):
     """If t is a chain replace(...replace(x, c1, s1)..., cn, sn) over a base string x return
     (x, {class char: image}) computed by running the chain on each character class."""
+    # the same homomorphism written as a loop over the characters: join(map(chars(x), |c| image(c)), "")
+    if t.op == "join" and t.a[1].op == "str" and t.a[1].a[0] == "" and t.a[0].op == "collect" and t.a[0].a[0].op == "map" \
+            and t.a[0].a[0].a[0].op == "chars" and isinstance(t.a[0].a[0].a[1], tm.T) and t.a[0].a[0].a[1].op == "lam":
+        lam = t.a[0].a[0].a[1]
+        img = {}
+        for c in CLASSES:
+            r = tm.apply_lam(lam, [tm.mk("char", c)])
+            if r.op not in ("str", "char") or not isinstance(r.a[0], str):
+                return None
+            img[c] = r.a[0]
+        return t.a[0].a[0].a[0].a[0], img
     chain = []
     cur = t
     while cur.op == "replace":
